@@ -6,7 +6,8 @@ from concurrent.futures import ThreadPoolExecutor
 from pathlib import Path
 
 VERIF = Path("/verif")
-seeds = sorted(p.name for p in (VERIF / "seeded").iterdir() if (p / "patch.diff").exists())
+SEED_DIR = os.environ.get("SEED_DIR", "seeded")
+seeds = sorted(p.name for p in (VERIF / SEED_DIR).iterdir() if (p / "patch.diff").exists())
 if len(sys.argv) > 1:
     seeds = [s for s in seeds if any(s.startswith(a) for a in sys.argv[1:])]
 built = sorted(p.stem.upper() for p in (VERIF / "vstat/rules").glob("c[0-9][0-9].py"))
@@ -16,7 +17,7 @@ def run(seed):
     wt = f"/tmp/seedrun_{seed}"
     subprocess.run(["git", "-C", "/repo", "worktree", "add", "-q", "--detach", wt, "HEAD"], check=True, capture_output=True)
     try:
-        r = subprocess.run(["git", "-C", wt, "apply", str(VERIF / "seeded" / seed / "patch.diff")], capture_output=True, text=True)
+        r = subprocess.run(["git", "-C", wt, "apply", str(VERIF / SEED_DIR / seed / "patch.diff")], capture_output=True, text=True)
         if r.returncode:
             return seed, {"error": "patch does not apply: " + r.stderr[:200]}
         out = {}
@@ -34,7 +35,7 @@ def run(seed):
 
 with ThreadPoolExecutor(8) as ex:
     results = dict(ex.map(run, seeds))
-matrix_path = VERIF / "seeded" / "MATRIX.json"
+matrix_path = VERIF / SEED_DIR / "MATRIX.json"
 old = json.loads(matrix_path.read_text()) if matrix_path.exists() else {}
 old.update(results)
 matrix_path.write_text(json.dumps(old, indent=1, sort_keys=True))
